@@ -12,7 +12,10 @@ PROP = dict(
         level_note="Modelled, not verified: sync.WaitGroup (atomic counter, Wait enabled at 0), goroutine creation; the model cannot show "
                    "scheduler starvation, a closer that never returns, or a panic inside a closer goroutine. The tie to the code is the "
                    "regenerated skeleton (C14_skeleton) plus real App.Close runs with 0-62 closers, delays 0-30 ms, random error subsets, "
-                   "closers of zero-size types among them (a component's address is not its identity).",
+                   "closers of zero-size types among them (a component's address is not its identity), closers that are themselves wired with "
+                   "the App and created before it (the App collects a closer that is still in creation), and closers whose type prints like "
+                   "the type of another component (reflect.Type.String() is not an identity; the harness process runs many Apps). Which "
+                   "components reach App.CloserComponents is decided by the container's wiring (C06/C08 model it); here it is tied by the real runs only.",
         subs=[dict(sub="close", driver="conc", n_quick=150, n_thorough=1000)],
         thorough_seeds=3,
         rule="close <n> <errmask> <seed>: n uniform in 0..16; error subset empty (25%), everyone (25%) or random (50%); each closer "
@@ -23,7 +26,17 @@ PROP = dict(
              "OTHER - a closer returns only when all n have been entered (closers in fastmask, about a quarter of them in a third of the cases, "
              "return at once), with a 2 s give-up timer that only fires when the library holds closers back until others have returned "
              "(oracle close-slow-blocks-others: nobody had to give up); the model side runs one pseudo-random schedule of the proven transition system per scenario and samples at the "
-             "step main returns; n = 0 is labelled trivial; distinct = distinct scenario lines",
+             "step main returns; n = 0 is labelled trivial; distinct = distinct scenario lines; "
+             "fifth round, appended to that stream (n/8 cases each) and present in the corpus: `closea <n> <errmask> <amask> <bmask> <tmask> <seed>`: 0-12 closers, those in "
+             "amask carry a `*app.App` injection point, those in bmask a custom name (Naming()) that sorts BEFORE the App's own name "
+             "github.com/go-kid/ioc/app/App (a-vc…, github.com/go-kid/ioc/app/A…, Vc…; the others vc…, …/app/App…, z-vc…), tmask adds up to two "
+             "App-wired closers that are named after their type (after the App) and, optionally, an early-named component wired with them that "
+             "pulls them in before the App; registration order rotated from the seed; `closed <n> <errmask> <pairs> <seed>`: 0-8 ordinary "
+             "closers plus 1-4 pairs of components of DIFFERENT types that print the same (`*conn.Conn` / `*conn.Pool` / `*conn.Sess` of the "
+             "packages internal/dupa/conn and internal/dupb/conn, two function-local types `conn`), exactly one of a pair being a closer "
+             "(Sess: both), in both registration orders, or split over two Apps that are started and closed one after the other in the same "
+             "process, in both orders; all under the same exactly-once oracle close-not-all-once (every REGISTERED closer invoked once and "
+             "returned when Close returns)",
         trusted_base=COMMON_TB + ["the reading of Facts.closeSkel into guards (Ioc.Conc.closeShape) and the go/ast skeleton extractor "
                                   "(harness/cmd/facts: calls named Add/Done/Wait/Close, go statements, loops, branches)",
                                   "sync.WaitGroup and the Go scheduler as modelled (atomic counter; every interleaving of atomic steps)"],
